@@ -17,7 +17,7 @@ class SFrame(SOpaque):
         if attr == "columns":
             return SOpaque(ufun("frame.columns", U(), U())(self.t), "columns")
         if attr == "index":
-            return SOpaque(ufun("frame.index", U(), U())(self.t), "any")
+            return SFrameIndex(ufun("frame.index", U(), U())(self.t), "any", self.t)
         from .interp import BoundMethod
         return BoundMethod(self, attr)
 
@@ -47,6 +47,19 @@ class SFrame(SOpaque):
     def isinstance(self, I, c):
         import pandas as pd
         return c in (pd.DataFrame, object)
+
+
+class SFrameIndex(SOpaque):
+    """frame.index: an opaque value whose length is the frame's number of rows"""
+
+    def __init__(self, t, tag, frame_t):
+        super().__init__(t, tag)
+        self.frame_t = frame_t
+
+    def length(self, I):
+        n = ufun("frame.nrows", U(), I_)(self.frame_t)
+        I.ctx.assume(n >= 0)
+        return SInt(n)
 
 
 class SIsna(Sym):
